@@ -2136,7 +2136,17 @@ impl NullableInterval {
                         let rhs_values = rhs.values();
                         match (lhs_values, rhs_values) {
                             (Some(lhs_values), Some(rhs_values)) => {
-                                lhs_values.equal(rhs_values)?.not()?
+                                let distinct = lhs_values.equal(rhs_values)?.not()?;
+                                // Certainly equal values are still distinct
+                                // when the side that may be null is NULL
+                                if distinct == Interval::FALSE
+                                    && (matches!(self, Self::MaybeNull { .. })
+                                        || matches!(rhs, Self::MaybeNull { .. }))
+                                {
+                                    Interval::TRUE_OR_FALSE
+                                } else {
+                                    distinct
+                                }
                             }
                             (Some(_), None) | (None, Some(_)) => Interval::TRUE,
                             (None, None) => unreachable!("Null case handled above"),
@@ -2255,7 +2265,9 @@ impl NullableInterval {
             Self::Null { datatype } => {
                 Some(ScalarValue::try_from(datatype).unwrap_or(ScalarValue::Null))
             }
-            Self::MaybeNull { values } | Self::NotNull { values }
+            // A `MaybeNull` interval never collapses to a single value: besides
+            // the values in its range it also admits NULL.
+            Self::NotNull { values }
                 if values.lower == values.upper && !values.lower.is_null() =>
             {
                 Some(values.lower.clone())
